@@ -333,6 +333,10 @@ def check_obligation(o, want_trace=True):
                 res.update(status='undecided', reason='vacuity: canary assertion after the call was not reached/refuted '
                            '(contradictory precondition or non-returning harness): ' + str(cres.get('reason', ''))[:500])
                 return res
+    elif res['status'] == 'fail' and any('.no-body.' in p[0] for p in res.get('failed', [])):
+        # a callee of the std model has no body in this TU: a gap of the machinery, never a verdict about the code
+        res['status'] = 'undecided'
+        res['reason'] = 'model function without body: ' + '; '.join(p[0] for p in res['failed'] if '.no-body.' in p[0])[:300]
     elif res['status'] == 'fail':
         real = classify_failure(res)
         res['real_failures'] = real
